@@ -35,7 +35,12 @@ def force(spec, r, pt=None, pf=None, ps=None, fn=None, src=None, title=True, sub
     return spec
 
 
+_GRID = []
+
+
 def generate(g, i):
+    if i < len(_GRID):
+        return _GRID[i]
     r = g.r
     if r.random() < 0.2:
         spec = g.figure()
@@ -69,7 +74,8 @@ def product_specs(seed):
 
 def run(ctx):
     common.TIE_EXCUSES["value"] = True
-    res = common.run_docprop(ctx, "c06", generate, None, n_quick=170, n_thorough=1500)
+    _GRID[:] = gen.DocGen(ctx["seed"] + 606).figure_grid(ctx["tier"] == "quick")
+    res = common.run_docprop(ctx, "c06", generate, None, n_quick=170 + len(_GRID), n_thorough=1500 + len(_GRID))
     if ctx.get("replay") or ctx["tier"] != "thorough":
         return res
     ex = product_specs(ctx["seed"])
